@@ -21,6 +21,7 @@ import (
 	"pgregory.net/rapid"
 	"verif/harness/kit"
 	"verif/harness/model"
+	altzoo "verif/harness/alt/zoo"
 	"verif/harness/zoo"
 )
 
@@ -98,6 +99,7 @@ type GenOpts struct {
 	Faults             bool
 	Lookups            bool
 	Twins              bool // a second instance of an existing node type (the twin carries a custom name)
+	Alt                bool // nodes of the alt package (same package name, same type names, distinct types)
 }
 
 var DefaultOpts = GenOpts{MinNodes: 2, MaxNodes: zoo.K, Variants: "NLP", Aliases: true}
@@ -152,6 +154,12 @@ func Gen(t *rapid.T, o GenOpts) *Scenario {
 			tw.Mask = rapid.IntRange(0, 63).Draw(t, "twmask") & present
 			tw.Lookups = nil
 			s.Nodes = append(s.Nodes, tw)
+		}
+	}
+	if o.Alt && rapid.IntRange(0, 2).Draw(t, "alt") == 0 {
+		k := rapid.IntRange(1, 3).Draw(t, "nalt")
+		for j := 0; j < k; j++ {
+			s.Nodes = append(s.Nodes, NodeSpec{Idx: j, Variant: 'A'})
 		}
 	}
 	// aliases must be unique (duplicate registration is C07's subject)
@@ -225,6 +233,10 @@ func (s *Scenario) Instantiate() *Instance {
 	}
 	for _, n := range s.Nodes {
 		b := &zoo.Beh{ID: len(in.Comps), Alias: n.Alias, Mask: zoo.MaskName(n.Mask), Log: in.Log, FailAPS: n.FailAPS, FailInit: n.FailInit}
+		if n.Variant == 'A' {
+			add(altzoo.New(n.Idx, b), b) // same-named types from the alt package
+			continue
+		}
 		add(zoo.New(n.Variant, n.Idx, b), b)
 	}
 	for i, n := range s.Nodes {
